@@ -299,6 +299,10 @@ impl Changeset {
 
     pub(crate) fn truncate(&mut self, len: usize) {
         debug!(target: "rustyline", "Changeset::truncate({})", len);
+        // every group was closed (`end()`, by a key that left vi insert mode inside the sub-loop): the
+        // `End` markers above `len` that close groups opened below it are discarded too; close these
+        // groups again afterwards
+        let closed = self.undo_group_level == 0;
         // groups still open among the discarded changes are discarded with them
         let (mut begins, mut ends) = (0u32, 0u32);
         for change in self.undos.iter().skip(len) {
@@ -310,6 +314,9 @@ impl Changeset {
         }
         self.undo_group_level = (self.undo_group_level + ends).saturating_sub(begins);
         self.undos.truncate(len);
+        if closed {
+            self.end();
+        }
     }
 
     #[cfg(test)]
